@@ -61,14 +61,15 @@ Lemma deep_line : forall f t, (depth t <= f)%nat -> wf_b t = true -> exists l, I
 Proof.
   induction f as [|f IH].
   - intros t Hd Hw.
-    destruct t as [c body more|ch n content|ts|mk pad ts|mk pad ts bl next|lv hc hb|rc rn|e0 epre ech edbl ew epost|l0 lpre lw ldest lpost]; [| |cbn [depth] in Hd; lia|cbn [depth] in Hd; lia|cbn [depth] in Hd; lia| | | |].
+    destruct t as [c body more|ch n content|ts|mk pad ts|mk pad ts bl next|lv hc hb|rc rn|e0 epre ech edbl ew epost|l0 lpre lw ldest lpost|s0 st0' sgs]; [| |cbn [depth] in Hd; lia|cbn [depth] in Hd; lia|cbn [depth] in Hd; lia| | | | |].
     + exists (SLine 0 c body). split; [left; reflexivity|cbn [depth weight]; lia].
     + exists (SLine 0 ch (repeat ch (n - 1))). split; [left; reflexivity|cbn [depth weight]; lia].
     + eexists. split; [left; reflexivity|cbn [depth weight]; lia].
     + eexists. split; [left; reflexivity|cbn [depth weight]; lia].
     + eexists. split; [left; reflexivity|cbn [depth weight]; lia].
     + eexists. split; [left; reflexivity|cbn [depth weight]; lia].
-  - intros t. induction t as [c body more|ch n content|ts|mk pad ts|mk pad ts bl next IHn|lv hc hb|rc rn|e0 epre ech edbl ew epost|l0 lpre lw ldest lpost]; intros Hd Hw.
+    + eexists. split; [left; reflexivity|cbn [depth weight]; lia].
+  - intros t. induction t as [c body more|ch n content|ts|mk pad ts|mk pad ts bl next IHn|lv hc hb|rc rn|e0 epre ech edbl ew epost|l0 lpre lw ldest lpost|s0 st0' sgs]; intros Hd Hw.
     + exists (SLine 0 c body). split; [left; reflexivity|cbn [depth weight]; lia].
     + exists (SLine 0 ch (repeat ch (n - 1))). split; [left; reflexivity|cbn [depth weight]; lia].
     + cbn [wf_b] in Hw. repeat rewrite andb_true_iff in Hw. destruct Hw as [[Hs Hall] Hg].
@@ -89,6 +90,7 @@ Proof.
                       negb (thematic_start (item_first_line mk pad (join_blank (map spell ts)))) = true) by (repeat rewrite andb_true_iff; exact Hw).
         destruct (item_deep_line f IH mk pad ts ltac:(lia) Hw') as (l & Hl & Wl).
         exists l. split; [|exact Wl]. cbn [spell]. apply in_or_app. left. exact Hl.
+    + eexists. split; [left; reflexivity|cbn [depth weight]; lia].
     + eexists. split; [left; reflexivity|cbn [depth weight]; lia].
     + eexists. split; [left; reflexivity|cbn [depth weight]; lia].
     + eexists. split; [left; reflexivity|cbn [depth weight]; lia].
